@@ -71,6 +71,7 @@ theorem skel_OAuthProxy_UserInfo_ok : skel_OAuthProxy_UserInfo = ([
   "p.getAuthenticatedSession",
   "if err != nil",
   "return",
+  "rw.Header().Set",
   "rw.WriteHeader",
   "if session == nil",
   "if err != nil",
@@ -114,6 +115,7 @@ theorem skel_SessionStore_Load_ok : skel_SessionStore_Load = ([
   "encryption.Validate",
   "if !ok",
   "return nil, errors.New(\"cookie signature not valid\")",
+  "errors.New",
   "sessions.DecodeSessionState",
   "if err != nil",
   "return nil, err",
@@ -136,6 +138,7 @@ theorem skel_storedSessionLoader_refreshSessionIfNeeded_ok : skel_storedSessionL
   "defer",
   "for !lockObtained",
   "return errors.New(\"timeout obtaining session lock\")",
+  "errors.New",
   "session.ObtainLock",
   "if err != nil && !errors.Is(err, sessionsapi.ErrLockNotObtained)",
   "return fmt.Errorf(\"error occurred while trying to obtain lock: %v\",",
@@ -151,6 +154,7 @@ theorem skel_storedSessionLoader_refreshSessionIfNeeded_ok : skel_storedSessionL
   "return fmt.Errorf(\"could not load session: %v\", err)",
   "if freshSession == nil",
   "return errors.New(\"session no longer exists, it may have been remov",
+  "errors.New",
   "if !needsRefresh(s.refreshPeriod, session)",
   "needsRefresh",
   "return nil",
@@ -165,6 +169,7 @@ theorem skel_OAuthProxy_OAuthCallback_ok : skel_OAuthProxy_OAuthCallback = ([
   "return",
   "req.Form.Get",
   "if errorString != \"\"",
+  "fmt.Sprintf",
   "p.ErrorPage",
   "return",
   "decodeState",
@@ -226,5 +231,57 @@ theorem skel_isAllowedPath_ok : skel_isAllowedPath = ([
 
 theorem skel_isAllowedMethod_ok : skel_isAllowedMethod = ([
   "return route.method == \"\" || req.Method == route.method"] : List String) := rfl
+
+theorem skel_jwtSessionLoader_getJwtSession_ok : skel_jwtSessionLoader_getJwtSession = ([
+  "req.Header.Get",
+  "if auth == \"\"",
+  "return nil, nil",
+  "if err != nil",
+  "return nil, err",
+  "errors.New",
+  "if err != nil",
+  "return session, nil",
+  "return nil, k8serrors.NewAggregate(errs)"] : List String) := rfl
+
+theorem skel_jwtSessionLoader_findTokenFromHeader_ok : skel_jwtSessionLoader_findTokenFromHeader = ([
+  "splitAuthHeader",
+  "if err != nil",
+  "return \"\", err",
+  "if tokenType == \"Bearer\" && j.jwtRegex.MatchString(token)",
+  "j.jwtRegex.MatchString",
+  "return token, nil",
+  "if tokenType == \"Basic\"",
+  "return j.getBasicToken(token)",
+  "return \"\", fmt.Errorf(\"no valid bearer token found in authorization hea"] : List String) := rfl
+
+theorem skel_getBasicSession_ok : skel_getBasicSession = ([
+  "req.Header.Get",
+  "if auth == \"\"",
+  "return nil, nil",
+  "if err != nil",
+  "return nil, err",
+  "if validator.Validate(user, password)",
+  "validator.Validate",
+  "return &sessionsapi.SessionState{User: user, Groups: sessionGroups}, nil",
+  "return nil, nil"] : List String) := rfl
+
+theorem skel_decodeTicketFromRequest_ok : skel_decodeTicketFromRequest = ([
+  "req.Cookie",
+  "if err != nil",
+  "return nil, err",
+  "encryption.Validate",
+  "if !ok",
+  "return nil, fmt.Errorf(\"session ticket cookie failed validation: %v\", er",
+  "return decodeTicket(string(val), cookieOpts)"] : List String) := rfl
+
+theorem skel_ticket_loadSession_ok : skel_ticket_loadSession = ([
+  "if err != nil",
+  "return nil, fmt.Errorf(\"failed to load the session state with the ticket",
+  "if err != nil",
+  "return nil, err",
+  "sessions.DecodeSessionState",
+  "if err != nil",
+  "return nil, err",
+  "return sessionState, nil"] : List String) := rfl
 
 end O2P.Expect.C01
